@@ -267,6 +267,24 @@ def suffix_of(rem, K):
     return z3.And(z3.Length(rem) <= z3.Length(K), HM.tail(K, z3.Length(K) - z3.Length(rem)) == rem)
 
 
+def child_at(D, j):
+    t = HM.child(D, 15)
+    for i in reversed(range(15)):
+        t = z3.If(j == i, HM.child(D, i), t)
+    return t
+
+
+def one_hop(D0, K):
+    """the key is exactly one hop from D0: the whole path of an extension, or one nibble on a branch"""
+    return z3.Or(z3.And(HNode.is_HExt(D0), K == HNode.epath(D0)),
+                 z3.And(HNode.is_HBranch(D0), z3.Length(K) == 1, K[0] >= 0, K[0] <= 15))
+
+
+def hop_target(E, D0, K):
+    """the node one hop from D0 along K (meaningful under one_hop)"""
+    return HM.deref(E, z3.If(HNode.is_HExt(D0), HNode.echild(D0), child_at(D0, K[0])))
+
+
 def tf_inv(E, fr, _i):
     node = fr.locals["node"]
     rem = ops.seq_term_as(fr.locals["remaining_key"], "int")
@@ -276,9 +294,12 @@ def tf_inv(E, fr, _i):
     HM.unfold_wf(E, Dn)
     from contracts import seqlemmas as SL
     SL.use(E, "concat_empty", rem, ks)
+    oh = one_hop(D0, K)
     return [("view", mk_bool(view_eq(E, node, rem, D0, K, ks))),
             ("remaining-is-a-suffix", mk_bool(suffix_of(rem, K))),
-            ("node-well-formed", mk_bool(HM.hwfp(Dn)))]
+            ("node-well-formed", mk_bool(HM.hwfp(Dn))),
+            ("one-hop-not-taken-yet", mk_bool(z3.Implies(z3.And(oh, z3.Length(rem) > 0), z3.And(rem == K, Dn == D0)))),
+            ("one-hop-taken", mk_bool(z3.Implies(z3.And(oh, z3.Length(rem) == 0), Dn == hop_target(E, D0, K))))]
 
 
 def fresh_loop_node(E):
@@ -303,7 +324,9 @@ def tf_cases(E, ctx):
                            z3.Or(z3.And(HNode.is_HLeaf(Dn), z3.PrefixOf(rt, HNode.lpath(Dn))),
                                  z3.And(HNode.is_HExt(Dn), z3.PrefixOf(rt, HNode.epath(Dn)), rt != HNode.epath(Dn))))
         out = [("remaining-is-a-suffix", mk_bool(suffix_of(rt, K))), ("stops-only-inside-a-path", mk_bool(shape)),
-               ("node-well-formed", mk_bool(HM.hwfp(Dn)))]
+               ("node-well-formed", mk_bool(HM.hwfp(Dn))),
+               ("one-hop-reaches-the-child", mk_bool(z3.Implies(one_hop(D0, K), z3.And(z3.Length(rt) == 0,
+                                                                                        Dn == hop_target(E, D0, K)))))]
         if unit_mode:
             from contracts import seqlemmas as SL
             _step_facts(E, n, rt, ks)
@@ -420,6 +443,7 @@ def tf_result_facts(E, D0, K):
                                     z3.Or(z3.And(HNode.is_HLeaf(Dn), z3.PrefixOf(rt, HNode.lpath(Dn))),
                                           z3.And(HNode.is_HExt(Dn), z3.PrefixOf(rt, HNode.epath(Dn)), rt != HNode.epath(Dn))))))
         E.assume(mk_bool(HM.hlk(Dn, rt) == HM.hlk(D0, K)))          # the view equation at the empty continuation
+        E.assume(mk_bool(z3.Implies(one_hop(D0, K), z3.And(z3.Length(rt) == 0, Dn == hop_target(E, D0, K)))))
         ks = E.ghost.get("ks")
         if ks is not None:
             # ... and at the caller's ghost continuation (the unit proves it for an arbitrary one)
